@@ -189,7 +189,7 @@ impl QueryNode {
                 Self::is_default_attr(attr) + &format!("{}*", &Self::lucene_escape(prefix))
             }
             QueryNode::AttributeWildcard { attr, wildcard } => {
-                Self::is_default_attr(attr) + wildcard
+                Self::is_default_attr(attr) + &Self::wildcard_escape(wildcard)
             }
             QueryNode::NegatedNode { node } => {
                 if matches!(
@@ -253,42 +253,58 @@ impl QueryNode {
         }
     }
 
+    /// Escapes a glob: everything `lucene_escape` escapes, except the wildcards themselves.
+    fn wildcard_escape(input: &str) -> String {
+        let mut output = String::with_capacity(input.len());
+        for c in input.chars() {
+            if c != '*' && c != '?' && Self::needs_escape(c) {
+                output.push('\\');
+            }
+            output.push(c);
+        }
+        output
+    }
+
     pub fn lucene_escape(input: &str) -> String {
         let mut output = String::with_capacity(input.len());
         for c in input.chars() {
-            // : + - = && || > < ! ( ) { } [ ] ^ " ~ * ? : \ / and the white space that ends a term
-            if matches!(
-                c,
-                ' ' | '\t'
-                    | '\n'
-                    | '\r'
-                    | ':'
-                    | '+'
-                    | '-'
-                    | '='
-                    | '>'
-                    | '<'
-                    | '!'
-                    | '('
-                    | ')'
-                    | '{'
-                    | '}'
-                    | '['
-                    | ']'
-                    | '^'
-                    | '"'
-                    | '~'
-                    | '*'
-                    | '?'
-                    | '\\'
-                    | '/'
-            ) {
+            if Self::needs_escape(c) {
                 output.push('\\');
             }
             // TODO:  We're not catching '&&' and '||' but....does anyone do this?
             output.push(c);
         }
         output
+    }
+
+    fn needs_escape(c: char) -> bool {
+        // : + - = && || > < ! ( ) { } [ ] ^ " ~ * ? : \ / and the white space that ends a term
+        matches!(
+            c,
+            ' ' | '\t'
+                | '\n'
+                | '\r'
+                | ':'
+                | '+'
+                | '-'
+                | '='
+                | '>'
+                | '<'
+                | '!'
+                | '('
+                | ')'
+                | '{'
+                | '}'
+                | '['
+                | ']'
+                | '^'
+                | '"'
+                | '~'
+                | '*'
+                | '?'
+                | '\\'
+                | '/'
+        )
     }
 
     fn quoted_escape(input: &str) -> String {
